@@ -218,7 +218,10 @@ def enum_paths(stmts, unroll=1, limit=20000, collapse_sanitizers=True):
             raise AnalysisError("match statement not modelled")
         return nxt(path + [("other", st)])
 
-    go(list(stmts), [], lambda p: done(p, ("end",)))
+    # a statement list that is itself a loop body: 'continue' / 'break' at
+    # its top level end the path through the body
+    go(list(stmts), [], lambda p: done(p, ("end",)),
+       (lambda p: done(p, ("continue",)), lambda p: done(p, ("break",))))
     return out
 
 
